@@ -158,6 +158,14 @@ def run(ctx):
                      "User.%s is not (always) part of the pool definition hash: a reload that changes only this field keeps the old pool, whose snapshot keeps admitting the revoked password / skipping the new challenge" % fld)
 
     # ---------------- R3 pool must exist; R4 admin-only gate
+    # the cell the fetched secret is kept in (and compared from) belongs to one (database, user) pool: allocated per user in from_config
+    from common import pool_cell_findings
+    pcf = pool_cell_findings(F, {"auth_hash"})
+    r2.check(len(pcf) == 1, "secret-cell", "ConnectionPool.auth_hash is filled in from_config", "construction of ConnectionPool with auth_hash not found in from_config")
+    for f_, ok_, al_ in pcf:
+        r2.check(ok_, "secret-cell-per-user", "the auth_hash cell is allocated (%s) inside the per-user loop that builds the pool" % ", ".join(al_),
+                 "the auth_hash cell is allocated outside the per-user loop: every user of a [pools.X] section shares one cell, which holds whichever user's secret was fetched last - a client that claims to be bob and "
+                 "answers the salt with alice's secret is admitted as bob")
     r3 = ctx.rule("C09-R3", "non-admin logins reach auth_ok only through the Some arm of get_pool(database, user)", floor=1)
     r4 = ctx.rule("C09-R4", "auth_ok is reached only if admin==true or admin_only==false; admin <=> database in {pgcat, pgbouncer}", floor=2)
     # the local stored into Client.admin
